@@ -133,6 +133,13 @@ func runC16(c *core.Ctx, res *core.Result) {
 	apply := func(typ uint8, k, v []byte) error {
 		seq++
 		err := applier.Apply(&wal.Entry{SequenceNumber: seq, Type: typ, Key: k, Value: v})
+		for try := 0; try < 20 && kv.IsEngineBusy(err); try++ {
+			// the engine gave the write up because its log was in rotation (storage.RetryOnWALRotating): a replica
+			// gets the same error and applies the entry again after the retransmission - so does the monitor
+			res.Count("applier_retries_engine_busy", 1)
+			time.Sleep(20 * time.Millisecond)
+			err = applier.Apply(&wal.Entry{SequenceNumber: seq, Type: typ, Key: k, Value: v})
+		}
 		if err == nil {
 			if typ == wal.OpTypeDelete {
 				model.Del(k)
@@ -209,6 +216,10 @@ func runC16(c *core.Ctx, res *core.Result) {
 		}
 		if internal {
 			// the documented applier path must work, and is mirrored in the model
+			if kv.IsEngineBusy(callErr) {
+				res.Count("applier_retries_engine_busy", 1)
+				continue // the engine's own give-up (log in rotation); nothing was written, nothing to mirror
+			}
 			if callErr != nil {
 				res.Violate("applier_refused", fmt.Sprintf("%s failed on the read-only replica: %v", m.Name, callErr), feat)
 				break
